@@ -448,12 +448,11 @@ func (env *ExecEnv) Eval(expr string) (n int, err error) {
 	defer func() {
 		if e := recover(); e != nil {
 			l.Error(e.(error).Error())
-			err = l.err
-			verifHook(l, hkEvalExit)
 		}
+		err = l.wait()
+		verifHook(l, hkEvalExit)
 	}()
 
 	yyParse(l)
-	verifHook(l, hkEvalExit)
-	return l.n, l.err
+	return l.n, nil
 }
